@@ -23,6 +23,14 @@ the length, the composed affine map (fold in an abstract monoid), well-formednes
 the normal form (iscanonical's predicate / its mirror image), given the item-level contract A-SWAP.
 Item level (contracts/c11_swap.py, BOUNDED native enumeration): the real swapup/swapdown of SimplexEdge (whole `swap` table,
 ndims 1..3), TensorEdge1/2, ScaledUpdim, Updim satisfy A-SWAP in exact rational arithmetic.
+
+Second round (notes/C11-c11b.md):
+  contracts/c11_struct.py   StructuredTransforms LOOKUP harness (bounded: <= 3 axes, <= 2 refinements; all axis values symbolic incl. periodic)
+  contracts/c11_plain.py    PlainTransforms LOOKUP harness (bounded: 3 elements with heads of different lengths, symbolic ids), EmptyTransforms,
+                            Transforms.index / contains / contains_with_tail
+  contracts/c11_basearr.py  integer-array branch of the base class Transforms.__getitem__ (unbounded)
+  contracts/c11_seq.py      bounded native enumerations: array / slice / mask forms of __getitem__, transformseq.chain, elementseq / pointsseq containers
+  contracts/c11_get.py      _Uniform/_Take/_Repeat/_Product.get of elementseq and pointsseq (unbounded)
 """
 import z3
 from pyvc.contract import Contract, State
@@ -510,9 +518,14 @@ def contracts():
     for t in (0, 2):
         cs += [IndexLookup(t), MaskedLookup(t), ReorderedLookup(t), UniformDerivedLookup(t), DerivedLookup(t)]
     cs += [ChainedLookup(0), ChainedLookup(2), IndexLookupNegative(), IndexLookupForeign(), MaskedForeign(), AxisInverse('unmap-after-map'), AxisInverse('map-after-unmap')]
-    from contracts import c11_chain, c11_swap
+    from contracts import c11_chain, c11_swap, c11_struct, c11_plain, c11_seq, c11_get, c11_basearr
     cs += c11_chain.contracts()
     cs += c11_swap.contracts()
+    cs += c11_struct.contracts()
+    cs += c11_plain.contracts()
+    cs += c11_seq.contracts()
+    cs += c11_get.contracts()
+    cs += c11_basearr.contracts()
     return cs
 
 
@@ -522,7 +535,20 @@ TRUSTED = ['pyvc symbolic executor and its Python model; harness contracts compo
            'chain rewriting (contracts/c11_chain.py): affine maps under composition form a monoid (exact arithmetic); L-MONOID fold lemmas '
            '(split, singleton, empty, frame) used as explicit instances only, cross-checked on random integer matrices in native/axioms.py; '
            'L-MONO on the dimensions along a well-formed chain; model of tuple/list of items (index, slice, slice store, +) with CPython clamping',
-           'item-level swaps (contracts/c11_swap.py): the native enumeration harness native/c11.py and exact Fraction arithmetic on the float matrix entries']
+           'item-level swaps (contracts/c11_swap.py): the native enumeration harness native/c11.py and exact Fraction arithmetic on the float matrix entries',
+           'StructuredTransforms (contracts/c11_struct.py): local models IVec (numpy int vector of concrete length: asarray/array of a list, elementwise + - * // %, divmod by the literal shape), '
+           'CTable/CIndices (the (2,)*n child-transform table and its inverse dict: entries equal iff their index tuples are equal), EItem (pairwise distinct structured edge transforms), '
+           'util.product = left fold of *; L-RADIX (row-major digits <-> index is a bijection onto range(prod n_k)); L-DIVMOD as GROUND instances with checked premise; '
+           'the callee contract of Axis.map/unmap (unmap(map(x)) == x for 0 <= x < len, proved here as AxisInverse) replaces their bodies in all but the one-axis unrefined configuration',
+           'PlainTransforms (contracts/c11_plain.py): id() = one integer per object; Python tuple order on id tuples; numpy.searchsorted on a sorted object array of tuples = number of entries '
+           '<= x (right) / < x (left); numpy.empty((), object) with a[()] = x',
+           'container get (contracts/c11_get.py): abstract parent sequences (get(k) = uninterpreted item for 0 <= k < len, IndexError otherwise), item.product uninterpreted; L-RADIX, ground L-DIVMOD',
+           'bounded native enumerations (contracts/c11_seq.py, native/c11b.py): the enumeration harness itself (reference semantics = Python lists of the elements obtained by integer access)',
+           'base-class array indexing (contracts/c11_basearr.py): numpy any/all over comparison results (exists/forall), less/greater/greater_equal/equal with a scalar, diff, fancy indexing a[s], '
+           'argsort(a) = a permutation of range(len(a)) with an inverse such that a[s] is non-decreasing, argsort of a permutation = its inverse (L-PERM); inductive lemmas L-MONO (strict), L-MONO-GAP, L-PROG '
+           '(adjacent differences 1 => arithmetic progression) offered for the index array; types.arraydata is the identity on arrays; the meaning of the produced Masked/Reordered objects '
+           '(item k = parent[indices[k]], len(Reordered) = len(parent)) is the one their integer __getitem__ is verified against in the LOOKUP harnesses',
+           'all of the above cross-checked on random inputs in native/axioms_c11b.py (L-RADIX, ground L-DIVMOD, searchsorted on object arrays, Axis callee contract, A-NF-S / A-NF-P on real sequences)']
 ASSUMPTIONS = ['parent satisfies LOOKUP (structural induction over the nesting of sequence classes: meta-argument)',
                'documented class preconditions: strictly increasing mask indices; permutation indices; derived transforms of a reference are pairwise distinct',
                'tails of length 0 and 2 are exercised; the bodies only slice the tail (parametric in its length)',
@@ -531,8 +557,24 @@ ASSUMPTIONS = ['parent satisfies LOOKUP (structural induction over the nesting o
                'proofs, CHECKED for the real classes only on the bounded family of contracts/c11_swap.py',
                'canonical/uppermost/promote: A-DIM (todims >= fromdims >= 0 for every item); input chains are well-formed (fromdims of an item equals todims of the next); '
                'swapup/swapdown are pure functions of (receiver, argument) on interned items (C17)',
-               'promote: canonical and uppermost are replaced by their contracts (exactly the postconditions proved for them in this property)']
-NOT_COVERED = ['PlainTransforms (lookup by id() sort over object arrays), EmptyTransforms, StructuredTransforms, ChainedTransforms slicing branches, Transforms.index/contains/__getitem__ dispatch',
+               'promote: canonical and uppermost are replaced by their contracts (exactly the postconditions proved for them in this property)',
+               'StructuredTransforms: class invariants of Axis (i <= j, mod >= 0; a periodic axis fits in one period: j - i <= mod); the child table holds pairwise distinct interned items; '
+               'A-NF-S (ASSUMED, cross-checked natively): uppermost keeps the leading structured children, and promote(uppermost(edges + tail), fromdims) == edges + NF(tail); identity when there '
+               'is no user tail (by A-SWAP: a square receiver never swaps, adjacent updims do not swap)',
+               'PlainTransforms: class invariants established by the constructor (_sorted[s] is the id tuple of _transforms[_indices[s]], lexicographically increasing) and the documented '
+               'precondition that no transform is a head of another; A-NF-P (ASSUMED, cross-checked natively): promote(element + tail, fromdims) == element + NF(tail) for the canonical elements; '
+               'for a foreign chain promote is taken as the identity (any chain none of whose heads is an element)',
+               'Transforms.index/contains/contains_with_tail: self.index_with_tail is abstract (returns (k, ()) / (k, (item,)) or raises ValueError)',
+               'Transforms.__getitem__(int array): the recursive call self[index[s]] is replaced by the contract of the sorted case (`#int-array,sorted`, proved with the real body; its precondition '
+               '"sorted and in range" is an obligation at the call); self is an abstract sequence (only len(self), todims, fromdims are read)',
+               'container get: _Take indices lie within the parent (checked by the constructor), count >= 1, lengths >= 0; parents are only asked for normalised (non-negative) indices']
+NOT_COVERED = ['Transforms.__getitem__: the slice and boolean-mask branches and the subclass overrides (Masked/Reordered/Chained) are covered by bounded native enumeration only; "rejected EXACTLY for" is proved as '
+               '"accepted => in range and distinct" plus "IndexError/ValueError only for an out-of-range/repeated index" (together: exactly); index arrays of ndim != 1',
+               'StructuredTransforms beyond 3 axes / 2 refinements / the exercised patterns of boundary axes; its constructor (_ctransforms, _cindices, _etransforms tables); lookup soundness '
+               '("found only members") for periodic axes (unmap accepts any congruent index); PlainTransforms beyond three elements of 2, 1, 3 items and its constructor (argsort of the object array)',
+               'array / slice / mask forms of __getitem__ and transformseq.chain: only BOUNDED native enumeration on small real sequences (no symbolic proof); negative slice steps (NotImplementedError by design); '
+               'ChainedTransforms whose items are themselves chained (only producible by calling the constructor directly: chain() flattens one level)',
+               'elementseq/pointsseq: take/compress/repeat/product/chain of the containers only by BOUNDED native enumeration (get is proved unbounded); _Derived, children/edges/getpoints, _balanced_chain/_merge_chain beyond the pool',
                'TransformIndex/TransformCoords evaluation, locate(), interface consistency',
                'termination of canonical/uppermost; that canonical/uppermost of a tail keep a derived transform at position 0 (A-NF) is still assumed, not derived from A-SWAP',
                'A-SWAP for item classes/dimensions outside the bounded family (simplex ndims > 3, deeper tensor nestings); "ndims is reached as soon as possible" in promote beyond head-canonical/tail-uppermost']
